@@ -198,10 +198,10 @@ class Interp:
             if H.kind(cs) == "LetExpr":
                 self.bind_pat(cs["pat"], cs["init"], e_then, env)
             for s in self.block_value(n["then"], e_then):
-                out.append((("when", self.desc(c, env), True),) + s)
+                out.append((("when", self.desc(c, env), True, self.cond_facts(c, env, True)),) + s)
             if n.get("else") is not None:
                 for s in self.block_value(n["else"], env):
-                    out.append((("when", self.desc(c, env), False),) + s)
+                    out.append((("when", self.desc(c, env), False, self.cond_facts(c, env, False)),) + s)
             return out[:MAX_PATHS]
         if k == "Match":
             out = []
@@ -218,6 +218,37 @@ class Interp:
             return [(("unk", "return"),)]
         return [(("unk", k),)]
 
+    def cond_facts(self, c, env, pol):
+        """what is certain about the kinds of AST parts once condition c evaluated to pol: (('kind', path, 'A|B', is), ...)
+        (conjuncts of a true `&&`, disjuncts of a false `||`, through `!`)"""
+        c = H.strip(c)
+        k = H.kind(c)
+        if k == "Unary" and c.get("op") == "Not":
+            return self.cond_facts(c["e"], env, not pol)
+        if k == "Binary" and c.get("op") in ("And", "Or"):
+            if (c["op"] == "And") == pol:
+                return self.cond_facts(c["l"], env, pol) + self.cond_facts(c["r"], env, pol)
+            return ()
+        if k == "Match" and len(c["arms"]) == 2 and all(H.kind(H.strip(a_["body"])) == "Lit" and H.strip(a_["body"]).get("lk") == "bool" for a_ in c["arms"]):
+            yes_ = [a_ for a_ in c["arms"] if H.strip(a_["body"]).get("v") in (True, "true")]
+            if len(yes_) == 1 and yes_[0].get("guard") is None and H.kind(c["arms"][-1]["pat"]) == "Wild":
+                vs_ = sorted(H.last(v) for v in H.pat_variants(yes_[0]["pat"]))
+                p = self.path_of(c["scrut"], env)
+                if vs_ and p is not None:
+                    return (("kind", p, "|".join(vs_), pol),)
+            return ()
+        if k == "LetExpr":
+            vs_ = sorted(H.last(v) for v in H.pat_variants(c["pat"]))
+            p = self.path_of(c["init"], env)
+            if vs_ and p is not None:
+                return (("kind", p, "|".join(vs_), pol),)
+            return ()
+        if k == "Path" and c["res"].get("local") is not None:
+            v = env.get(c["res"]["local"])
+            if isinstance(v, Val) and v.kind == "expr":
+                return self.cond_facts(v.data[0], v.data[1], pol)
+        return ()
+
     def desc(self, n, env):
         """short description of a condition: which paths' kinds / helper calls it inspects"""
         parts = []
@@ -231,6 +262,19 @@ class Interp:
                 p = self.path_of(x, env)
                 if p is not None:
                     parts.append(("path", p))
+            if H.kind(x) == "Match" and len(x["arms"]) == 2 and all(H.kind(H.strip(a_["body"])) == "Lit" and H.strip(a_["body"]).get("lk") == "bool" for a_ in x["arms"]):
+                # `matches!(e, V(..) | W(..))`: a test on the kind of e
+                yes_ = [a_ for a_ in x["arms"] if H.strip(a_["body"]).get("v") in (True, "true")]
+                if len(yes_) == 1 and yes_[0].get("guard") is None:
+                    vs_ = sorted(H.last(v) for v in H.pat_variants(yes_[0]["pat"]))
+                    p = self.path_of(x["scrut"], env)
+                    if vs_ and p is not None:
+                        parts.append(("kind", p, "|".join(vs_)))
+            if H.kind(x) == "LetExpr":
+                vs_ = sorted(H.last(v) for v in H.pat_variants(x["pat"]))
+                p = self.path_of(x["init"], env)
+                if vs_ and p is not None:
+                    parts.append(("kind", p, "|".join(vs_)))
             if H.kind(x) == "Path" and x["res"].get("local") is not None:
                 v = env.get(x["res"]["local"])
                 if isinstance(v, Val) and v.kind == "expr":
@@ -314,6 +358,13 @@ class Interp:
         elif k == "Or":
             for p in pat["pats"]:
                 self.bind_pat(p, scrut, env_new, env_scrut)
+        elif k == "Slice" and base is not None:
+            # `[single]` / `[first, rest @ ..]` over a list of the node: positional members
+            for i_, p in enumerate(pat.get("before") or pat.get("pats") or []):
+                while H.kind(p) == "Ref":
+                    p = p["pat"]
+                if H.kind(p) == "Bind" and p.get("sub") is None:
+                    env_new[p["name"]] = Val("path", base + ("[%d]" % i_,))
 
     # ---- blocks with accumulators
     def block_value(self, n, env):
@@ -450,9 +501,9 @@ class Interp:
                     new = []
                     for x in acc[k_]:
                         for s in t_acc[k_]:
-                            new.append(x + (("when", d, True),) + s)
+                            new.append(x + (("when", d, True, self.cond_facts(c, env, True)),) + s)
                         for s in f_acc[k_]:
-                            new.append(x + (("when", d, False),) + s)
+                            new.append(x + (("when", d, False, self.cond_facts(c, env, False)),) + s)
                     acc[k_] = new[:MAX_PATHS]
             return
         if k == "Block":
